@@ -69,17 +69,21 @@ CLAIMS = {
         technique="Rocq proof (LIKE/containment, glob, comparison-flip lemmas; refutation witnesses) + SQL-semantics correspondence on raw index rows + three-valued spec check",
         design="§5 C03"),
     "C04": dict(
-        text=("Rocq proof over a model of ZorgQueryCompiler that runs on any parse tree of the query grammar: Pn / Pn-m "
-              "denote exactly the priorities n..m for all 64 spellings, relative dates Nd/Nm/Ny (and the past form) equal "
-              "day / month / year arithmetic for every N < 1000 on month ends, month arithmetic is exact with end-of-month "
-              "clamping and stays a valid date, years are 12 months, the O and G clauses commute, omitted clauses keep the "
-              "defaults, a sub-filter attaches to the last and-filter of the enclosing group, the atoms of a group pool in "
-              "order, and the CLI normalisation adds exactly `W ` / ` G file`. End-to-end (text -> structure) is decided on "
-              "every run: exhaustive atom forms + random query structures against the denoted structure and against the "
-              "listener model on the exported ANTLR tree."),
-        note=("PARTIAL: the ANTLR query lexer/parser is not modelled; the rendering round trip is by generation (structure -> "
-              "text -> compile), not a theorem."),
-        technique="Rocq proof (denotation lemmas, finite-domain date/priority lemmas by vm_compute) + listener correspondence on exported trees + spec check",
+        text=("Rocq proof, END-TO-END ON THE LISTENER: for every abstract well-formed query (any number of and-groups and "
+              "alternatives, parenthesised sub-filters nested to any depth, every modelled atom form - kind sets, Pn / Pn-m, "
+              "negatable tags, create / modify ranges, property filters with every operator, link and file filters -, every "
+              "S / O / G clause in either order) the model of ZorgQueryCompiler run on tree_of_query yields exactly the "
+              "structure spec_query reads off the query (C04_query_denotes_its_structure; induction over the nesting with a "
+              "stack invariant for the groups of and-filters). Atom texts: Pn / Pn-m denote exactly the priorities n..m for "
+              "all 64 spellings, relative dates Nd/Nm/Ny (and the past form) equal day / month / year arithmetic for every "
+              "N < 1000 on month ends, month arithmetic is exact with end-of-month clamping, years are 12 months; the CLI "
+              "normalisation adds exactly `W ` / ` G file`. On every run: abstract queries of the theorem's domain - the text "
+              "is well-formed, tree_of_query == the tree the real ANTLR parser builds, spec_query == the compiled Query; plus "
+              "exhaustive atom forms and random richer queries (quoted text filters) against an independent reading and the "
+              "listener model on the exported tree."),
+        note=("PARTIAL: the ANTLR query parser is not modelled, so 'the parser builds tree_of_query for this text' is checked "
+              "differentially on every run; quoted description filters are outside the abstract syntax (differential only)."),
+        technique="Rocq proof (structure theorem by induction over nesting + denotation lemmas, finite-domain date/priority lemmas) + parse-tree / compiled-structure correspondence on the theorem's domain + spec check",
         design="§5 C04"),
     "C10": dict(
         text=("Rocq proof over the line-level model of FileManager.add_note/delete_note: deletion removes exactly "
